@@ -289,7 +289,9 @@ def pack_misc(elems, n):
 
 IDENTS = ['a1_', 'a b', 'a.b', 'a-b', "a'b", 'a{b}', 'a//b', 'é', '1a', 'a:b', 'a[b]', 'a,b', '#a', 'a\\b', 'a\\nb',
           'table', 'enum', 'ref', 'note', 'indexes', 'project', 'tablegroup', 'as', 'pk', 'null', 'unique', 'default', 'true',
-          'Note', 'TABLE', 'primary key', 'not null']
+          'Note', 'TABLE', 'primary key', 'not null',
+          # names that merely begin with a keyword
+          'notes', 'note_x', 'indexes2', 'pkey', 'nullable', 'unique_id', 'increment_by', 'tablex', 'refs', 'enums', 'as_of', 'projects', 'defaults']
 POSITIONS = ['table', 'schema', 'alias', 'column', 'enum', 'enum_schema', 'item', 'group', 'project', 'sticky', 'refname',
              'prop_key_table', 'prop_key_column', 'project_key', 'index_name', 'ref_target_col']
 
@@ -367,7 +369,6 @@ IDENT_EXCLUDED = {
 # body wins or commits (error stop).  These names are written double-quoted only.
 BARE_EXCLUDED = {
     ('schema', 'note'), ('alias', 'note'),          # a group member spelled `note...` starts a Note element
-    ('group', 'as'),                                # `TableGroup as {` is read as `Table Group as <alias>`
     ('prop_key_table', 'indexes'),
     ('prop_key_column', 'ref'), ('prop_key_column', 'pk'), ('prop_key_column', 'null'), ('prop_key_column', 'unique'),
     ('prop_key_column', 'default'),
